@@ -180,8 +180,8 @@ with cv_property (ev : env) (path : list str) (inoneof : bool) (num : N) (p : pr
       let sn := snake n in
       let finish (c : fcore) (lbl : plabel) (ty : ptype) (tn : str) (msgs : list dmsg) (imps : list str) :=
         if req && opt then Err "cannot be both required and optional"
-        else if inoneof && (opt || match lbl with LRepeated => true | _ => false end)
-        then Err "oneof member with a label"
+        else if inoneof && opt
+        then Err "optional oneof member"   (* outside the language; see notes/cmpa.md *)
         else Ok (mkPres [mkField sn n num ty lbl opt tn inoneof] msgs (fc_enums c)
                         (imps ++ if req then [imp_validate; imp_ext] else [])) in
       match f with
@@ -192,6 +192,9 @@ with cv_property (ev : env) (path : list str) (inoneof : bool) (num : N) (p : pr
       | FMap it =>
           obind (cv_item ev path (camel n) it) (fun c =>
             let en := map_name sn in
+            (* a oneof member's entry message is added to the parent of the oneof message, where
+               the linker does not accept it as a map entry *)
+            if inoneof then Err "map entry outside its message" else
             finish c LRepeated TMessage en
                    (fc_msgs c ++ [DMsg en MMapEntry [key_field; value_field c] [] []])
                    (fc_imports c))
